@@ -65,7 +65,7 @@ where
                     drop_svc = drop_svc || (h >> 40) % 4 == 0;
                 }
             }
-            if linger == Linger::No && ready_gap == 0 && call_gap_us == 0 && !drop_svc {
+            if linger == Linger::No && ready_gap == 0 && call_gap_us == 0 && !drop_svc && w.keep_panicked_call.load(std::sync::atomic::Ordering::Relaxed) == 0 {
                 do_call(&w, &mut svc, req, pause, &map).await;
                 return;
             }
@@ -99,7 +99,30 @@ where
                 tokio::time::sleep(std::time::Duration::from_micros(call_gap_us)).await;
             }
             w.log(Ev::FirstPoll { req: id });
-            let out = (&mut fut).await;
+            let keep = w.keep_panicked_call.load(std::sync::atomic::Ordering::Relaxed);
+            let out = if keep == 0 {
+                (&mut fut).await
+            } else {
+                let polled = std::future::poll_fn(|cx| match std::panic::catch_unwind(std::panic::AssertUnwindSafe(|| std::future::Future::poll(fut.as_mut(), cx))) {
+                    Ok(p) => p.map(Some),
+                    Err(_) => std::task::Poll::Ready(None),
+                })
+                .await;
+                match polled {
+                    Some(out) => out,
+                    None => {
+                        // the caller caught the panic and still holds the dead future
+                        let msg = crate::sim::take_last_panic().unwrap_or_default();
+                        w.log(Ev::ActorPanic { req: id, msg });
+                        for _ in 0..keep {
+                            yield_once().await;
+                        }
+                        w.log(Ev::Note { what: format!("late-drop of panicked r{id}") });
+                        let _ = std::panic::catch_unwind(std::panic::AssertUnwindSafe(move || drop(fut)));
+                        return;
+                    }
+                }
+            };
             let o = match &out {
                 Ok(r) => Outcome::ok(r),
                 Err(e) => map(e),
